@@ -85,6 +85,9 @@ def exercise(ctx):
                     modes += ["retry-then-ok"] * 3 + ["non-retryable"] * 2
                     if T is not None and T <= 60 and dur(policy["initialBackoff"]) >= 0.25:
                         modes.append("forever")
+                    if T is None and dur(policy["maxBackoff"]) >= 1.0 and dur(policy["initialBackoff"]) >= 0.25 and float(policy["backoffMultiplier"]) > 1.0:
+                        # an entry with a retry policy and no timeout: retrying is not bounded in time by the config
+                        modes.append("outlast")
                 elif entry is not None:
                     modes += ["non-retryable"]
                 modes += ["override-timeout", "override-retry"]
@@ -113,12 +116,14 @@ def exercise(ctx):
                     script = [bad if mode == "non-retryable" else "UNAVAILABLE"]
                 elif mode == "override-retry":
                     script = [bad] * kov
-                state = {"i": 0}
+                state = {"i": 0, "t0": clock.offset}
 
                 def respond(rec):
                     i = state["i"]
                     state["i"] += 1
                     if mode == "forever" and i < 3000:
+                        raise GrpcError(getattr(grpc.StatusCode, listed[i % len(listed)]), "scripted")
+                    if mode == "outlast" and clock.offset - state["t0"] < 150.0 and i < 3000:
                         raise GrpcError(getattr(grpc.StatusCode, listed[i % len(listed)]), "scripted")
                     if i < len(script):
                         raise GrpcError(getattr(grpc.StatusCode, script[i]), "scripted")
@@ -135,7 +140,7 @@ def exercise(ctx):
                     exc_cls = core_exceptions.exception_class_for_grpc_status(getattr(grpc.StatusCode, bad))
                     R = retries.Retry if kind == "sync" else retry_async.AsyncRetry
                     kw["retry"] = R(predicate=retries.if_exception_type(exc_cls), initial=0.01, maximum=0.02, multiplier=1.0, timeout=50.0)
-                if (policy and mode in ("retry-then-ok", "forever") and (faults or mode == "forever")) or mode.startswith("override"):
+                if (policy and mode in ("retry-then-ok", "forever", "outlast") and (faults or mode != "retry-then-ok")) or mode.startswith("override"):
                     ctx.nontrivial([("policy" if policy else "timeout" if entry else "none"), T is not None, mode, len(script), sorted(set(script))[:2], kind])
                 detail = {"rpc": path_, "client": kind, "mode": mode, "entry": entry, "script": script}
                 t0 = REAL_MONOTONIC()
@@ -201,6 +206,11 @@ def exercise(ctx):
                         raise Fail("retry-deadline", f"{path_} ({kind}): retried for {total:.2f}s of (fake) time, the entry's timeout is {T}s", detail)
                     if total < T - mx - max(1.0, 0.05 * T) and len(calls) < 3000:
                         raise Fail("retry-deadline-short", f"{path_} ({kind}): gave up after {total:.2f}s of (fake) time, the entry's timeout is {T}s", detail)
+                elif mode == "outlast":
+                    # retryable faults for 150 s of (fake) time, then OK: with no timeout in the entry the call has to get there
+                    if exc is not None:
+                        raise Fail("retry-gave-up", f"{path_} ({kind}): the entry has a retryPolicy and no timeout, the server recovered after 150s of (fake) time "
+                                   f"and {len(calls)} attempts, but the call raised {type(exc).__name__}: {str(exc)[:120]}", detail)
                 elif mode == "override-timeout":
                     if exc is not None or len(calls) != 1:
                         raise Fail("plain-call", f"{path_} ({kind}): {len(calls)} attempts, exception {exc!r}", detail)
